@@ -135,6 +135,14 @@ CHECKS = {
         design_ref='DESIGN.md §5 C20',
         note='Trusted base: vf/refcodec.py writers; the splice rule in vf/checks/c20.py (a spliced line is always a line of its own).',
         technique='runtime monitoring: reference-model oracle (independent splice) on real loads'),
+    'C13': dict(
+        category='exploration',
+        text='`p8tool build` is run through tool.main on sources and previous OUT files written by the reference writers with known random contents; OUT is read '
+             'back by the reference readers (and by picotool, which must agree) and every section, the label and the error behaviour are compared with the '
+             'expectation computed from the arguments. Thorough enumerates all 4^6 section assignments across the OUT states/formats.',
+        design_ref='DESIGN.md §5 C13',
+        note='Trusted base: vf/refcodec.py readers/writers. Music bit 7 of every 4th byte kept clear; code compared modulo one final newline.',
+        technique='runtime monitoring: reference-reader oracle over an enumerated configuration matrix'),
 }
 
 NOT_BUILT = 'check not built yet in this session (design in DESIGN.md §5); not claimed until its monitor runs silent on the unchanged tree'
